@@ -267,14 +267,42 @@ def sx_hex(x):
     return builtins.hex(x)
 
 
+class _GuardedRange:
+    """a long range: iterating past the limit is an unwinding-bound failure; loops that leave
+    early (an exception at the end of the input, a break) are not affected"""
+
+    def __init__(self, r, lim):
+        self.r, self.lim = r, lim
+
+    def __iter__(self):
+        n = 0
+        for v in self.r:
+            n += 1
+            if n > self.lim:
+                raise core.BoundExceeded(f'loop over range of {len(self.r)} steps passed {self.lim} iterations')
+            yield v
+
+    def __len__(self):
+        return len(self.r)
+
+    def __getitem__(self, k):
+        return self.r[k]
+
+    def __contains__(self, v):
+        return v in self.r
+
+    def __reversed__(self):
+        return reversed(self.r)
+
+
 def sx_range(*args):
-    """range(); with ctx.env['range_limit'] set, a loop of more steps than the limit is an
-    unwinding-bound failure (the harness decides what that means) instead of a silent long run"""
+    """range(); with ctx.env['range_limit'] set, a loop that really executes more iterations than
+    the limit is an unwinding-bound failure (the harness decides what that means)"""
     r = builtins.range(*args)
     if core.active():
         lim = core.ctx().env.get('range_limit')
         if lim is not None and len(r) > lim:
-            raise core.BoundExceeded(f'range of {len(r)} steps (limit {lim})')
+            return _GuardedRange(r, lim)
     return r
 
 
